@@ -13,9 +13,15 @@ void cfgv_log(int kind, const void *a, const void *b, long c)
 }
 cfg_opt_t *g_lookup_result;
 int g_diag_issued_by_lookup;
+_Bool g_lookup_by_name;      /* scripted runs: only the name "i..." is declared */
 cfg_opt_t *cfg_getopt(cfg_t *cfg, const char *name)
 {
 	cfgv_log(EV_LOOKUP, cfg, name, 0);
+	if (g_lookup_by_name) {
+		if (name && name[0] == 'i') return g_lookup_result;
+		if (cfg && !(cfg->flags & CFGF_IGNORE_UNKNOWN)) { cfg_error(cfg, "no such option '%s'", name); g_diag_issued_by_lookup++; }
+		return NULL;
+	}
 	/* contract::cfg_getopt: an unresolved name is reported unless the context ignores unknown options */
 	if (!g_lookup_result && cfg && !(cfg->flags & CFGF_IGNORE_UNKNOWN)) { cfg_error(cfg, "no such option '%s'", name); g_diag_issued_by_lookup++; }
 	return g_lookup_result;
